@@ -41,6 +41,18 @@ Durings == {<<>>, <<"call">>, <<"close">>, <<"call", "close">>, <<"close", "call
 Loss == [kind : {"lossrace"}, loss : {"cut", "down"}, park : ParkPoints, wpark : WParks, during : Durings, after : {"stay", "up"}]
 Close == [kind : {"closerace"}, loss : {"none"}, park : {"none"}, wpark : {"none"}, during : {<<"call">>, <<"call", "call">>, <<"cut">>, <<"call", "cut">>}, after : {"stay"}]
 
+\* Directed choreographies, each a TLC counterexample of the model with one repair switched off that needs more than one
+\* parked goroutine (three connection generations), plus the early reply of a hostile remote (Session.tla, EarlyReplies):
+\*   stalereader  reader 0 parked before it closes the socket; a call redials (connection 1); reader 0 closes connection 1;
+\*                reader 1 parked with its read error; a call redials again (connection 2); the stale reader 1 goes on
+\*   latecancel   the same up to reader 1, with a call in flight on connection 1 and the server refusing new connections:
+\*                the second call loses its round, reader 0 ends the session, reader 1 finds it ended
+\*   earlyreply   a scripted remote answers a call that is still inside AsyncCall and whose write then fails; later Close()
+Directed == {[kind |-> "stalereader", loss |-> "cut", park |-> "none", wpark |-> "none", during |-> <<>>, after |-> "stay"],
+             [kind |-> "latecancel", loss |-> "down", park |-> "none", wpark |-> "none", during |-> <<>>, after |-> "up"],
+             [kind |-> "earlyreply", loss |-> "redial", park |-> "none", wpark |-> "none", during |-> <<>>, after |-> "stay"],
+             [kind |-> "earlyreply", loss |-> "plain", park |-> "none", wpark |-> "none", during |-> <<>>, after |-> "stay"]}
+
 Has(c, x) == \E i \in 1..Len(c.during) : c.during[i] = x
 OK(c) ==
   /\ (c.kind = "lossrace" =>
@@ -50,11 +62,11 @@ OK(c) ==
         /\ (c.park \in {"redial.failed", "rd.redialfailed"} => c.loss = "down" \/ Has(c, "hookbad")))   \* a round only fails without a server or with a rejecting hook
 \* the server was reachable (and the dial hook accepting) during the whole scenario
 AlwaysUp(c) == c.loss # "down" /\ ~Has(c, "hookbad")
-Closed(c)   == c.kind = "closerace" \/ Has(c, "close")
+Closed(c)   == c.kind \in {"closerace", "earlyreply"} \/ Has(c, "close")
 
 VARIABLES c, done
 vars == <<c, done>>
-Init == c \in {x \in Loss \cup Close : OK(x)} /\ done = FALSE
+Init == c \in {x \in Loss \cup Close : OK(x)} \cup Directed /\ done = FALSE
 Run == ~done /\ done' = TRUE /\ UNCHANGED c
 Spec == Init /\ [][Run]_vars
 Sane == (c.kind = "closerace" => Closed(c)) /\ (AlwaysUp(c) => c.after = "stay")
